@@ -204,7 +204,10 @@ class LDAWrapper(LinearSolver):
                 x0_loc[idia, ...] = 0
                 for x in x_data:
                     beta = x0_loc[isel, ...].T @ x.conj() / (x.conj() @ x)
-                    x0_loc[isel, ...] -= np.outer(x, beta)
+                    dx0 = np.outer(x, beta)
+                    if np.iscomplexobj(dx0) and not np.iscomplexobj(x0_loc):
+                        continue  # Complex vector cannot be subtracted from real initial guess (same as for rhs)
+                    x0_loc[isel, ...] -= dx0
             else:
                 x0_loc = None
 
